@@ -35,7 +35,7 @@ ASSUMPTIONS = [
     "reference implementations in vlib/ref/dnssec.py and the canonical-form flags of the type table (RFC 4034 §6.2 minus NSEC)",
     "NSEC TTL and pre-existing NSEC/RRSIG records are outside the statement and not judged",
 ]
-REQUIRED = ["mon.canonical_form", "mon.rrsig_input", "mon.ds", "mon.key_tag", "mon.nsec3", "mon.zonemd", "mon.nsec_chain", "mon.signer_callback"]
+REQUIRED = ["mon.zonemd_signature_rich", "mon.rrsig_input_relativized", "mon.canonical_form", "mon.rrsig_input", "mon.ds", "mon.key_tag", "mon.nsec3", "mon.zonemd", "mon.nsec_chain", "mon.signer_callback"]
 BUDGET = {"quick": 40.0, "thorough": 420.0}
 
 
@@ -82,7 +82,8 @@ def check_rrsig_input(ctx, rng, t):
     ctx.count("evaluations")
     case = {"kind": "rrsig", "type": t}
     origin = GN.origin(rng, plain=True)
-    vals = [GR.gen(rng, t, None, False) for _ in range(rng.choice((1, 2, 3, 5)))]
+    vo = origin if rng.random() < 0.6 and len(origin) > 1 else None  # embedded names partly under the zone origin (absolute spelling)
+    vals = [GR.gen(rng, t, vo, False) for _ in range(rng.choice((1, 2, 3, 5)))]
     vals = [v for v in vals if v.rdclass == vals[0].rdclass and v.rdtype == vals[0].rdtype]
     try:
         rds = dns.rdataset.Rdataset(vals[0].rdclass, vals[0].rdtype)
@@ -115,6 +116,21 @@ def check_rrsig_input(ctx, rng, t):
                 got = dns.dnssec._make_rrsig_signature_data((mk(owner), rds), sig)
             except dns.exception.DNSException as e:
                 got = None
+            # the same RRset held the way a relativized zone holds it (owner and embedded names relative to the origin where they
+            # lie under it) with the origin passed along: the signing input is the same octets
+            if got is not None and t not in GR.META_TYPES and len(origin) > 1 and labels == n:
+                ctx.count("mon.rrsig_input_relativized")
+                try:
+                    o = mk(origin)
+                    rds_rel = dns.rdataset.Rdataset(rds.rdclass, rds.rdtype)
+                    for v in vals:
+                        if GR.build(v) in rds:
+                            rds_rel.add(GR.build(GZ.norm_val(v, origin, True)), ttl)
+                    got_rel = dns.dnssec._make_rrsig_signature_data((mk(owner).relativize(o), rds_rel), sig, o)
+                    if got_rel != got and not any(GR.case_variant_of_origin(v, origin) for v in vals):
+                        ctx.violation(f"rrsig-signing-input-differs-when-relativized:{t if t in ('LP', 'CH-A') else '*'}", f"owner={owner!r} origin={origin!r} type={t}", case)
+                except dns.exception.DNSException as e:
+                    ctx.violation("rrsig-input-relativized-raised:" + core.exc_sig(e), repr(e), case)
             ctx.seen(("rrsig", t if t in ("LP", "CH-A") else "*", labels - n, owner[0] == b"*"))
             if (got is None) != (want is None):
                 ctx.violation(f"rrsig-input-accept-reject-differs:{'wild' if owner[0] == b'*' else 'plain'}", f"owner={owner!r} labels={labels}: lib {'rejects' if got is None else 'accepts'}, reference {'rejects' if want is None else 'accepts'}", case)
@@ -218,6 +234,16 @@ def check_zone(ctx, rng):
                 if zmd.serial != soa_serial:
                     ctx.violation("zonemd-serial-wrong", "", case)
         ctx.seen(("zonemd", relativize, len(mz.nodes) // 4))
+        # a signed-looking zone: several RRSIG sets (different covered types) per name, stored in random order
+        mzs = GZ.gen_zone(rng, plain=True, types=["A", "TXT", "RRSIG", "RRSIG", "RRSIG", "MX", "RRSIG"])
+        for _exact, _sets in mzs.nodes.values():
+            _sets.pop((46, 5), None)  # RRSIG(CNAME) is CNAME-like for the other-data rule of nodes: it would evict its neighbours (C09's subject)
+        zs = GZ.build_lib_zone(mzs, relativize, order=rng)
+        for alg in (1, 2):
+            ctx.count("mon.zonemd")
+            ctx.count("mon.zonemd_signature_rich")
+            if zs.compute_digest(alg).digest != RD.zonemd_simple(mzs.origin, mz_rrs(mzs), alg):
+                ctx.violation(f"zonemd-digest-differs:{'relativized' if relativize else 'absolute'}:several-rrsig-sets-per-name", f"alg={alg}", dict(case, text=GZ.mz_to_text(mzs)))
         # NSEC chain through sign_zone with a recording signer (versioned zone: sign_zone needs a writer)
         vz = GZ.build_lib_zone(mz, relativize, zone_factory=dns.versioned.Zone)
         seen = []
